@@ -949,7 +949,13 @@ func callBuiltin(caller *frame, callpos token.Pos, fn *ssa.Builtin, args []value
 		}
 		arg0 := args[0].([]value)
 		caller.i.logAppend(arg0, len(extra))
-		return append(arg0, extra...)
+		// struct and array elements are values: the appended cells must not share them with the source
+		// (upstream x/tools interp aliases them)
+		ext2 := make([]value, len(extra))
+		for k := range extra {
+			ext2[k] = cloneAgg(extra[k])
+		}
+		return append(arg0, ext2...)
 
 	case "copy": // copy([]T, []T) int or copy([]byte, string) int
 		src := args[1]
@@ -968,7 +974,12 @@ func callBuiltin(caller *frame, callpos token.Pos, fn *ssa.Builtin, args []value
 		for k := 0; k < n; k++ {
 			caller.i.logStore(&dst[k])
 		}
-		return copy(dst, src.([]value))
+		srcv := src.([]value)
+		tmp := make([]value, n)
+		for k := 0; k < n; k++ {
+			tmp[k] = cloneAgg(srcv[k])
+		}
+		return copy(dst, tmp)
 
 	case "close": // close(chan T)
 		close(args[0].(chan value))
@@ -1481,4 +1492,24 @@ func fandbits[F floaty](x, y F) F {
 		*(*uint64)(unsafe.Pointer(&x)) &= *(*uint64)(unsafe.Pointer(&y))
 	}
 	return x
+}
+
+// cloneAgg copies struct and array values (which the interpreter represents by reference) so that
+// a copied element does not alias its source; pointers, slices and maps keep Go's reference semantics.
+func cloneAgg(v value) value {
+	switch x := v.(type) {
+	case structure:
+		out := make(structure, len(x))
+		for k := range x {
+			out[k] = cloneAgg(x[k])
+		}
+		return out
+	case array:
+		out := make(array, len(x))
+		for k := range x {
+			out[k] = cloneAgg(x[k])
+		}
+		return out
+	}
+	return v
 }
